@@ -256,7 +256,74 @@ def e2e(ctx, rng, n):
             rs.close()
 
 
+def order_independence(ctx, rng, n_orders):
+    """What a flow releases does not depend on the flows processed before it: flows of different response types
+    for one client (per-client always-add claims, secondary release point for response_type=id_token) in every
+    order on one long-lived provider vs. each flow alone on a fresh provider."""
+    import itertools
+    users = json.load(open(srv.USERS))
+    over = {"client_1": {"add_claims": {"always": {"id_token": ["nickname"], "userinfo": ["email", "phone_number"], "introspection": ["name"]},
+                                        "by_scope": {"id_token": False, "userinfo": True}}}}
+    flows = [("id_token", ["openid"]), ("code", ["openid", "profile"]), ("code id_token", ["openid"]), ("id_token", ["openid", "email"])]
+
+    def setup():
+        rs = sess.RealSession(oidc=True, client_over=copy.deepcopy(over))
+        for point in POINTS:
+            mod = module_of(rs.server, point)
+            mod.kwargs["enable_claims_per_client"] = True
+        return rs
+
+    def run_flow(rs, rt, scopes):
+        o = rs.run(("authz", "diana", "client_1", scopes, rt, {}))
+        if o[0] != "ok":
+            return {"error": o}
+        out = {}
+        new = o[1]
+        for i in new:
+            if rs.tokobj[i].token_class == "id_token":
+                out["authz_id_token"] = sorted(k for k in jwt_payload(rs.tokens[i]) if k in users["diana"])
+        codes = [i for i in new if rs.tokobj[i].token_class == "authorization_code"]
+        if codes:
+            rs.run(("tparse", "client_1", ("tok", codes[0]), "same"))
+            p = rs.run(("proc", len(rs.parsed) - 1, None))
+            if p[0] == "ok":
+                out["token_id_token"] = sorted(k for k in jwt_payload(rs.tokens[p[1]["id_token"]]) if k in users["diana"])
+                ui = rs.ep["userinfo"]
+                pr = ui.parse_request({}, http_info={"headers": {"authorization": "Bearer " + rs.tokens[p[1]["access_token"]]}})
+                out["userinfo"] = sorted(k for k in ui.process_request(pr)["response_args"] if k in users["diana"])
+        return out
+
+    alone = {}
+    for rt, sc in flows:
+        rs = setup()
+        try:
+            alone[(rt, tuple(sc))] = run_flow(rs, rt, sc)
+        finally:
+            rs.close()
+    orders = list(itertools.permutations(range(len(flows))))
+    rng.shuffle(orders)
+    for order in orders[:n_orders]:
+        rs = setup()
+        try:
+            before = copy.deepcopy(rs.ctx.cdb["client_1"].get("add_claims"))
+            hist = []
+            for i in order:
+                rt, sc = flows[i]
+                got = run_flow(rs, rt, sc)
+                hist.append({"flow": rt, "scopes": sc, "released": got})
+                if got != alone[(rt, tuple(sc))]:
+                    ctx.violation("history-dependent", "flow %s %r released %r after %r but %r on a fresh provider"
+                                  % (rt, sc, got, [h["flow"] for h in hist[:-1]], alone[(rt, tuple(sc))]), hist)
+            after = rs.ctx.cdb["client_1"].get("add_claims")
+            if after != before:
+                ctx.violation("client-config-changed", "the client's add_claims changed from %r to %r" % (before, after), hist)
+            ctx.case_seen({"order": [flows[i][0] for i in order], "hist": hist}, True)
+        finally:
+            rs.close()
+
+
 def run(ctx):
+    order_independence(ctx, ctx.rng, 6 if ctx.quick else 24)
     unit_cases(ctx, ctx.rng, 400 if ctx.quick else 12000)
     e2e(ctx, ctx.rng, 3 if ctx.quick else 40)
 
